@@ -426,6 +426,9 @@ func properties() map[string]*propDef {
 				// probe method x late switch to dynamic routes; histories of two and more operations also get an
 				// OPTIONS probe sent before the last operation and again at the end.
 				variants := []int{0, 1 + (nhist*7+seed)%19}
+				if len(ops) >= 3 {
+					variants = append(variants, len(ops)-1) // GET probe sent before the second-to-last operation as well
+				}
 				if len(ops) >= 2 {
 					variants = append(variants, 5+len(ops))
 					if last := ops[len(ops)-1]; last >= 50 && last != 90 {
@@ -453,6 +456,7 @@ func properties() map[string]*propDef {
 				add(0, 10+i, 50+i, 50+i, 70+i)
 				add(0, 10+i, 50+i, 50+i)
 				add(0, 10+i, 50+i, 110+i, 70+i)
+				add(0, 10+i, 50+i, 70+i, 110+i) // a route replaced by another one: the number of routes is the same again
 				add(0, 10+i, 110+i, 50+i)
 				add(0, 10+i, 90)
 				for j := 0; j < n; j++ {
